@@ -7,6 +7,7 @@ import (
 	"context"
 	"errors"
 	"fmt"
+	"math"
 	"strings"
 	"sync"
 	"time"
@@ -1753,9 +1754,12 @@ func (c *Client) runHandleInvocation(msg *wamp.Invocation) {
 
 		// Create a kill switch so that invocation can be canceled.
 		if timeout > 0 {
-			// The caller specified a timeout, in milliseconds.
+			// The caller specified a timeout, in milliseconds. Do not let the
+			// conversion to nanoseconds overflow: the call would be canceled
+			// at once.
+			const maxTimeout = int64(math.MaxInt64 / int64(time.Millisecond))
 			ctx, cancel = context.WithTimeout(context.Background(),
-				time.Millisecond*time.Duration(timeout))
+				time.Millisecond*time.Duration(min(timeout, maxTimeout)))
 		} else {
 			ctx, cancel = context.WithCancel(context.Background())
 		}
